@@ -2,6 +2,7 @@ package props
 
 import (
 	"fmt"
+	"os"
 	"go/ast"
 	"go/constant"
 	"go/token"
@@ -248,7 +249,7 @@ func (e *peEnv) step(fn *ssa.Function, b *ssa.BasicBlock, idx int, hdr *ssa.Basi
 			case *ssa.Call:
 				name := sx.CalleeName(x)
 				switch {
-				case name == "builtin.append" && sx.Origins(x.Call.Args[0])["param:"+outBuf.Name()]:
+				case name == "builtin.append" && derivesFromBuf(x.Call.Args[0], outBuf, map[ssa.Value]bool{}):
 					src := x.Call.Args[1]
 					if sl, ok := src.(*ssa.Slice); ok {
 						if al, ok := sl.X.(*ssa.Alloc); ok {
@@ -324,6 +325,31 @@ func (e *peEnv) step(fn *ssa.Function, b *ssa.BasicBlock, idx int, hdr *ssa.Basi
 	return out
 }
 
+// derivesFromBuf: v is the output buffer's contents — *buf itself, or a local copy of it that is extended by appends
+// (`dst := *buf; dst = append(dst, …); *buf = dst`).
+func derivesFromBuf(v ssa.Value, outBuf ssa.Value, seen map[ssa.Value]bool) bool {
+	if v == nil || seen[v] {
+		return false
+	}
+	seen[v] = true
+	if sx.Origins(v)["param:"+outBuf.Name()] {
+		return true
+	}
+	switch x := v.(type) {
+	case *ssa.Phi:
+		for _, e := range x.Edges {
+			if derivesFromBuf(e, outBuf, seen) {
+				return true
+			}
+		}
+	case *ssa.Call:
+		if sx.CalleeName(x) == "builtin.append" {
+			return derivesFromBuf(x.Call.Args[0], outBuf, seen)
+		}
+	}
+	return false
+}
+
 // charLoop finds, in an escaping function, the loop over the string parameter and the
 // instruction that reads the current byte (`b := str[i]`) and the rune decoding call.
 type charLoop struct {
@@ -386,7 +412,13 @@ func findCharLoop(fn *ssa.Function) (*charLoop, string) {
 	return cl, ""
 }
 
+var peDebug = os.Getenv("GLB_PE_DEBUG") != ""
+
 func (cl *charLoop) evalByte(p *core.Prog, tables map[string][]constant.Value, b byte) peOutcome {
+	if peDebug && b == 0 {
+		fmt.Fprintf(os.Stderr, "pe: byteIn=%s in block %d hdr=%d\n", cl.byteIn, cl.byteIn.Block().Index, cl.hdr.Index)
+		cl.fn.WriteTo(os.Stderr)
+	}
 	e := &peEnv{p: p, vals: map[ssa.Value]constant.Value{cl.byteV: constant.MakeInt64(int64(b))}, arrays: map[*ssa.Alloc]map[int64]constant.Value{}, tables: tables}
 	blk := cl.byteIn.Block()
 	idx := 0
